@@ -52,6 +52,39 @@ pub struct SlCase {
     /// sign as a flag (min_speed) and enforces the magnitude (braking points take abs())
     #[serde(default)]
     pub neg: u8,
+    /// speed set gated by a train-parameter condition (0 = unconditional).  Thresholds are placed relative to THIS
+    /// train: 1 MassTotal > midway(mass per brake, towed mass) [applies], 2 MassTotal > 2 x towed mass [does not],
+    /// 3 MassPerBrake > midway [does not], 4 MassPerBrake <= mass per brake (equality) [applies],
+    /// 5 AxleCount >= axle count (equality) [applies], 6 AxleCount < axle count [does not]
+    #[serde(default)]
+    pub gate: u8,
+}
+
+/// the gating condition of the case's speed sets and whether it holds for the case's train (reference evaluation)
+pub fn gate_param(c: &SlCase) -> Option<(altrios_core::track::SpeedParam, bool)> {
+    use altrios_core::track::{CompareType as C, LimitType as L, SpeedParam};
+    if c.gate == 0 {
+        return None;
+    }
+    let tp = train_config(&c.train).make_train_params().ok()?;
+    let (total, mpb, axles) = (tp.towed_mass_static.value, tp.mass_per_brake.value, tp.axle_count as f64);
+    let mid = 0.5 * (total + mpb);
+    let (limit_type, compare_type, limit_val, applies) = match c.gate {
+        1 => (L::MassTotal, C::TpGreaterThanRp, mid, total > mid),
+        2 => (L::MassTotal, C::TpGreaterThanRp, 2.0 * total, false),
+        3 => (L::MassPerBrake, C::TpGreaterThanRp, mid, mpb > mid),
+        4 => (L::MassPerBrake, C::TpLessThanEqualRp, mpb, true),
+        5 => (L::AxleCount, C::TpGreaterThanEqualRp, axles, true),
+        _ => (L::AxleCount, C::TpLessThanRp, axles, false),
+    };
+    Some((SpeedParam { limit_val, limit_type, compare_type }, applies))
+}
+/// the zones that bind this train (none when the gating condition fails)
+pub fn effective_zones(c: &SlCase) -> Vec<(f64, f64, f64)> {
+    match gate_param(c) {
+        Some((_, false)) => vec![],
+        _ => c.zones.clone(),
+    }
 }
 
 fn elev_at(grade: u8, x: f64) -> f64 {
@@ -146,7 +179,15 @@ pub fn build_network(c: &SlCase) -> Network {
         fwd.push(f);
         base += len;
     }
-    build_topology(&fwd, false, SetStyle::Single)
+    let mut net = build_topology(&fwd, false, SetStyle::Single);
+    if let Some((p, _)) = gate_param(c) {
+        for l in net.0.iter_mut().skip(1) {
+            if let Some(ss) = l.speed_set.as_mut() {
+                ss.speed_params.push(p.clone());
+            }
+        }
+    }
+    net
 }
 
 pub fn build_sim(c: &SlCase, net: &Network) -> Result<SpeedLimitTrainSim, String> {
@@ -165,9 +206,10 @@ pub fn build_sim(c: &SlCase, net: &Network) -> Result<SpeedLimitTrainSim, String
 /// at an exact breakpoint the larger neighbour is allowed
 pub fn ref_limit(c: &SlCase, train_len: f64, speed_max: f64, x: f64) -> f64 {
     let add = if c.head_end { 0.0 } else { train_len };
+    let zones = effective_zones(c);
     let at = |x: f64| {
         let mut v = speed_max;
-        for (s, e, sp) in &c.zones {
+        for (s, e, sp) in &zones {
             if *s <= x && x < *e + add && *sp < v {
                 v = *sp;
             }
@@ -208,7 +250,8 @@ fn window_class(c: &SlCase) -> &'static str {
     let len = crate::domain::train::train_ref(&c.train).length;
     let add = if c.head_end { 0.0 } else { len };
     let mut bps: Vec<f64> = vec![];
-    for (s, e, _) in &c.zones {
+    let zones = effective_zones(c);
+    for (s, e, _) in &zones {
         bps.push(*s);
         bps.push(*e + add);
     }
@@ -217,7 +260,7 @@ fn window_class(c: &SlCase) -> &'static str {
     let total: f64 = c.link_len.iter().sum();
     let at = |x: f64| {
         let mut v = 20.0f64;
-        for (s, e, sp) in &c.zones {
+        for (s, e, sp) in &zones {
             if *s <= x && x < *e + add && *sp < v {
                 v = *sp;
             }
@@ -603,37 +646,44 @@ pub fn cases(tier: Tier) -> Vec<SlCase> {
                         continue;
                     }
                     let t0 = if (pi + ti) % 2 == 0 { 0.0 } else { 137.5 };
-                    v.push(SlCase { sl: true, link_len: vec![TOTAL], zones: z.clone(), grade, head_end: head, train, t0, mode: Mode::Whole, brake_ramp: None, neg: 0 });
+                    v.push(SlCase { sl: true, link_len: vec![TOTAL], zones: z.clone(), grade, head_end: head, train, t0, mode: Mode::Whole, brake_ramp: None, neg: 0, gate: 0 });
                     if ti != 1 {
                         // sign-flagged (negative) posted speeds: first zone, middle zone, the first two, all three
                         for neg in [0b001u8, 0b010, 0b011, 0b111] {
-                            v.push(SlCase { sl: true, link_len: vec![TOTAL], zones: z.clone(), grade, head_end: head, train, t0, mode: Mode::Whole, brake_ramp: None, neg });
+                            v.push(SlCase { sl: true, link_len: vec![TOTAL], zones: z.clone(), grade, head_end: head, train, t0, mode: Mode::Whole, brake_ramp: None, neg, gate: 0 });
+                        }
+                    }
+                    if ti == 0 && pi % 9 == 0 && (grade == 0 || grade == 2) {
+                        // speed sets gated by a train-parameter condition (thresholds placed relative to this train)
+                        for gate in 1..=6u8 {
+                            v.push(SlCase { sl: true, link_len: vec![TOTAL], zones: z.clone(), grade, head_end: head, train, t0, mode: Mode::Whole, brake_ramp: None, neg: 0, gate });
+                            v.push(SlCase { sl: true, link_len: vec![1000.0, 1000.0, 1000.0], zones: z.clone(), grade, head_end: head, train, t0, mode: Mode::LinkByLink { threshold: 1000.0 }, brake_ramp: None, neg: 0, gate });
                         }
                     }
                     if ti == 2 {
                         // the same heavy train with a 10 s friction-brake ramp (TrainSimBuilder hard-codes 0 s; the field
                         // is public).  Longer ramps are NOT generated: from about 15 s the unchanged code already runs
                         // into its overspeed assert when the limit is reached on a downgrade (DESIGN, C03)
-                        v.push(SlCase { sl: true, link_len: vec![TOTAL], zones: z.clone(), grade, head_end: head, train, t0, mode: Mode::Whole, brake_ramp: Some(10.0), neg: 0 });
+                        v.push(SlCase { sl: true, link_len: vec![TOTAL], zones: z.clone(), grade, head_end: head, train, t0, mode: Mode::Whole, brake_ramp: Some(10.0), neg: 0, gate: 0 });
                     }
                     // multi-link schedules
                     if tier.is_thorough() || pi % 3 == 0 {
                         let chain = vec![1000.0, 1000.0, 1000.0];
                         for th in [8047.0, 1000.0, 25.0] {
-                            v.push(SlCase { sl: true, link_len: chain.clone(), zones: z.clone(), grade, head_end: head, train, t0, mode: Mode::LinkByLink { threshold: th }, brake_ramp: None, neg: 0 });
+                            v.push(SlCase { sl: true, link_len: chain.clone(), zones: z.clone(), grade, head_end: head, train, t0, mode: Mode::LinkByLink { threshold: th }, brake_ramp: None, neg: 0, gate: 0 });
                         }
                         if ti == 0 {
-                            v.push(SlCase { sl: true, link_len: chain.clone(), zones: z.clone(), grade, head_end: head, train, t0, mode: Mode::Timed { delayed: 0, delay: 0.0 }, brake_ramp: None, neg: 0 });
+                            v.push(SlCase { sl: true, link_len: chain.clone(), zones: z.clone(), grade, head_end: head, train, t0, mode: Mode::Timed { delayed: 0, delay: 0.0 }, brake_ramp: None, neg: 0, gate: 0 });
                             for delayed in [1usize, 2] {
                                 for delay in [60.0, 600.0] {
-                                    v.push(SlCase { sl: true, link_len: chain.clone(), zones: z.clone(), grade, head_end: head, train, t0, mode: Mode::Timed { delayed, delay }, brake_ramp: None, neg: 0 });
+                                    v.push(SlCase { sl: true, link_len: chain.clone(), zones: z.clone(), grade, head_end: head, train, t0, mode: Mode::Timed { delayed, delay }, brake_ramp: None, neg: 0, gate: 0 });
                                 }
                             }
                             if grade % 2 == 0 {
                                 // make_est_times only moves the train while more than 5 mi of path lie ahead: add a 9 km link
                                 let mut zl = z.clone();
                                 zl.push((TOTAL, TOTAL + 9000.0, 15.0));
-                                v.push(SlCase { sl: true, link_len: vec![1000.0, 1000.0, 1000.0, 9000.0], zones: zl, grade, head_end: head, train, t0, mode: Mode::EstTimes, brake_ramp: None, neg: 0 });
+                                v.push(SlCase { sl: true, link_len: vec![1000.0, 1000.0, 1000.0, 9000.0], zones: zl, grade, head_end: head, train, t0, mode: Mode::EstTimes, brake_ramp: None, neg: 0, gate: 0 });
                             }
                         }
                     }
@@ -649,7 +699,7 @@ pub fn explore(ctx: &mut Ctx, which: &'static str) {
         // C07/C11/C12 ride on the whole-path and link-by-link runs (and timed rows for C07/C12)
         if which != "C03" {
             // the sign-flagged speed variants concern the speed controller only
-            if c.neg != 0 {
+            if c.neg != 0 || c.gate != 0 {
                 continue;
             }
             match (&c.mode, which) {
